@@ -257,6 +257,7 @@ def scan_forbidden():
                 continue
             for i, l in enumerate(open(f), 1):
                 s = re.sub(r"\(\*.*?\*\)", "", l)
+                s = re.sub(r'"[^"]*"', '""', s)          # string literals (generated tables contain class names)
                 if FORBIDDEN.search(s):
                     bad.append("%s:%d: %s" % (f, i, l.strip()))
     return bad
